@@ -1838,3 +1838,289 @@ Section ExactlyOne.
       + destruct (creates_b w s) eqn:Ecr; [|lia]. pose proof (creating_step_matches w s HI Hok Ecr) as HM'. specialize (IHm HM'). lia.
   Qed.
 End ExactlyOne.
+
+(** * Part 6: fault-free passes (existence / exactness statements) *)
+Section NoFault.
+  Variable hash : N -> option N -> N.
+  Variable slices : N -> option (list pobj).
+  Variable sliceaware : bool.
+  Let fault : option (nat * bool) := None.
+
+  Lemma read_req_alive st : p_dead st = false -> p_dead (read_req fault st) = false.
+  Proof. unfold read_req. now intros ->. Qed.
+
+  Lemma upd_req_ok st s life pbp :
+    p_dead st = false -> find_dset (dw_sets (p_w st)) (sname s) = Some s ->
+    upd_req fault st s life pbp =
+      (emit st (with_sets (p_w st) (put_dset (dw_sets (p_w st)) (set_life s life pbp (w_rv (dw_w (p_w st))))) (bump_rv (dw_w (p_w st))))
+            [DUpdate (sname s) life pbp WOk] false, set_life s life pbp (w_rv (dw_w (p_w st)))).
+  Proof. unfold upd_req. intros -> ->. cbn. now rewrite N.eqb_refl. Qed.
+
+  Definition needs_pause_update (paused : bool) (s : dset) : bool :=
+    negb (is_archived s) && negb (Bool.eqb paused (paused_by_parent s)).
+  Definition pause_update (paused : bool) (s : dset) : dev :=
+    DUpdate (sname s) (if paused then LPaused else LActive) paused WOk.
+
+  (** Without faults the pause propagation updates exactly the non-archived ObjectSets whose paused-by-parent
+      state differs from the deployment's, in list order, and the pass goes on. *)
+  Lemma pause_loop_exact paused : forall sets st st' mem,
+    p_dead st = false -> NoDup (map sname sets) ->
+    (forall s, In s sets -> find_dset (dw_sets (p_w st)) (sname s) = Some s) ->
+    pause_loop fault st paused sets = (st', mem) ->
+    p_dead st' = false /\ p_evs st' = p_evs st ++ map (pause_update paused) (filter (needs_pause_update paused) sets).
+  Proof.
+    induction sets as [|s r IH]; cbn [pause_loop filter map]; intros st st' mem Hal Hnd Hst H.
+    - injection H as <- _. split; [assumption|now rewrite app_nil_r].
+    - inversion Hnd as [|? ? Hn Hr]; subst. unfold needs_pause_update at 1.
+      destruct (is_archived s) eqn:Ea; cbn [negb andb].
+      + destruct (pause_loop fault st paused r) as [st2 r2] eqn:E2. injection H as <- _.
+        eapply IH; eauto. intros x Hx. apply Hst. now right.
+      + destruct (Bool.eqb paused (paused_by_parent s)) eqn:Eb; cbn [negb].
+        * destruct (pause_loop fault st paused r) as [st2 r2] eqn:E2. injection H as <- _.
+          eapply IH; eauto. intros x Hx. apply Hst. now right.
+        * assert (Hu : (if paused then upd_req fault st s LPaused true else upd_req fault st s LActive false) =
+                       upd_req fault st s (if paused then LPaused else LActive) paused) by (now destruct paused).
+          rewrite Hu, (upd_req_ok st s _ _ Hal (Hst s (or_introl eq_refl))) in H.
+          match type of H with (let '(_, _) := pause_loop _ ?st1 _ _ in _) = _ => destruct (pause_loop fault st1 paused r) as [st2 r2] eqn:E2 end.
+          injection H as <- _.
+          assert (Hst1 : forall x, In x r -> find_dset (dw_sets (p_w (emit st
+                    (with_sets (p_w st) (put_dset (dw_sets (p_w st)) (set_life s (if paused then LPaused else LActive) paused (w_rv (dw_w (p_w st))))) (bump_rv (dw_w (p_w st))))
+                    [DUpdate (sname s) (if paused then LPaused else LActive) paused WOk] false))) (sname x) = Some x).
+          { intros x Hx. cbn [emit p_w with_sets dw_sets]. rewrite find_put_other; [apply Hst; now right|].
+            rewrite sname_set_life. intros E. apply Hn. rewrite E. now apply in_map. }
+          destruct (IH _ _ _ (eq_refl : p_dead (emit _ _ _ false) = false) Hr Hst1 E2) as (Hal2 & He2).
+          split; [assumption|]. rewrite He2. cbn [emit p_evs map]. rewrite <- app_assoc. reflexivity.
+  Qed.
+
+  Lemma status_req_ok st d : p_dead st = false ->
+    p_dead (status_req fault st d) = false /\
+    p_evs (status_req fault st d) = p_evs st ++ [DStatus (d_hash d) (d_cc d) (d_conds d) (d_revision d) (d_ctrlof d) WOk] /\
+    (status_eqb_d (dw_dep (p_w st)) d = false -> dw_dep (p_w (status_req fault st d)) = with_status_d (dw_dep (p_w st)) d (w_rv (dw_w (p_w st)))) /\
+    dw_sets (p_w (status_req fault st d)) = dw_sets (p_w st).
+  Proof.
+    unfold status_req. intros ->. cbn. repeat split.
+    - intros ->. reflexivity.
+    - destruct (status_eqb_d _ _); reflexivity.
+  Qed.
+
+  (** C09: a pass of a paused deployment, all revisions reported: exactly the pause updates and the status. *)
+  Theorem paused_pass_exact stale w w' evs r :
+    NoDup (map sname (dw_sets w)) -> d_paused (dw_dep w) = true -> has_rev0 (listed stale w) = false ->
+    dep_pass hash fault slices sliceaware stale w = (w', evs, r) ->
+    r = DpDone /\ exists h cc cs rv co,
+      evs = map (pause_update true) (filter (needs_pause_update true) (listed stale w)) ++ [DStatus h cc cs rv co WOk].
+  Proof.
+    intros Hnd Hpa H0 Hp. destruct (dep_pass_unfold _ _ _ _ _ _ _ _ _ Hp) as (st3 & d2 & -> & _ & -> & Hc).
+    destruct Hc as [(E0 & _)|(_ & stp & mem & Epl & Hc)]; [congruence|].
+    destruct Hc as [(_ & -> & ->)|(Epa & _)]; [|cbn in Epa; congruence].
+    assert (Hal : p_dead (st_listed fault w) = false) by (unfold st_listed; now rewrite !read_req_alive).
+    assert (Hst : forall s, In s (listed stale w) -> find_dset (dw_sets (p_w (st_listed fault w))) (sname s) = Some s).
+    { intros s Hs. rewrite st_listed_w. apply nodup_find; [assumption|]. now apply listed_in in Hs. }
+    destruct (pause_loop_exact _ _ _ _ _ Hal (listed_nodup _ _ Hnd) Hst Epl) as (Hal' & He).
+    rewrite st_listed_evs in He. cbn [app] in He. change (d_paused (dep_hashed hash w)) with (d_paused (dw_dep w)) in He. rewrite Hpa in He.
+    destruct (status_req_ok stp (set_status (dep_hashed hash w) (fst (split_current (has_current (dep_hashed hash w) (listed stale w)) mem))
+                                             (snd (split_current (has_current (dep_hashed hash w) (listed stale w)) mem))) Hal') as (-> & -> & _).
+    split; [reflexivity|]. rewrite He. eauto 7.
+  Qed.
+
+  (** C09: unpausing releases exactly the non-archived revisions carrying the paused-by-parent state. *)
+  Theorem unpause_exact stale w w' evs r :
+    NoDup (map sname (dw_sets w)) -> d_paused (dw_dep w) = false -> has_rev0 (listed stale w) = false ->
+    dep_pass hash fault slices sliceaware stale w = (w', evs, r) ->
+    exists rest, evs = map (pause_update false) (filter (needs_pause_update false) (listed stale w)) ++ rest /\
+                 forall n life pbp ur, In (DUpdate n life pbp ur) rest -> life <> LActive.
+  Proof.
+    intros Hnd Hpa H0 Hp. pose proof (dep_pass_justified _ _ _ _ _ _ _ _ _ Hnd Hp) as HJ.
+    destruct (dep_pass_unfold _ _ _ _ _ _ _ _ _ Hp) as (st3 & d2 & -> & _ & _ & Hc).
+    destruct Hc as [(E0 & _)|(_ & stp & mem & Epl & Hc)]; [congruence|].
+    destruct Hc as [(Epa & _)|(_ & sta & d3 & mem' & Enr & Ear & ->)]; [cbn in Epa; congruence|].
+    assert (Hal : p_dead (st_listed fault w) = false) by (unfold st_listed; now rewrite !read_req_alive).
+    assert (Hst : forall s, In s (listed stale w) -> find_dset (dw_sets (p_w (st_listed fault w))) (sname s) = Some s).
+    { intros s Hs. rewrite st_listed_w. apply nodup_find; [assumption|]. now apply listed_in in Hs. }
+    destruct (pause_loop_exact _ _ _ _ _ Hal (listed_nodup _ _ Hnd) Hst Epl) as (Hal' & He).
+    rewrite st_listed_evs in He. cbn [app] in He. change (d_paused (dep_hashed hash w)) with (d_paused (dw_dep w)) in He. rewrite Hpa in He.
+    destruct (new_revision_spec _ _ _ _ _ _ _ Enr) as (esn & Hnn & Hesn & _).
+    destruct (archive_news fault slices sliceaware _ _ _ _ _ _ Ear) as (esa & Hna & _ & Hesa).
+    destruct (status_req_news fault st3 (set_status d3 (fst (split_current (has_current (dep_hashed hash w) (listed stale w)) mem'))
+                                                       (snd (split_current (has_current (dep_hashed hash w) (listed stale w)) mem')))) as (ess & Hns & Hess).
+    unfold news in *. rewrite Hns, Hna, Hnn, He. rewrite <- !app_assoc. eexists. split; [reflexivity|].
+    intros n life pbp ur Hin. apply in_app_or in Hin. destruct Hin as [Hin|Hin].
+    - destruct Hesn as [->|(rr & -> & _)]; [contradiction|]. destruct Hin as [Hin|[]]. discriminate.
+    - apply in_app_or in Hin. destruct Hin as [Hin|Hin].
+      + rewrite Forall_forall in Hesa. destruct (Hesa _ Hin) as [(n0 & p0 & r0 & E)|[(n0 & p0 & r0 & E & _)|(n0 & r0 & E & _)]]; [injection E as _ -> _ _; discriminate|injection E as _ -> _ _; discriminate|discriminate].
+      + destruct Hess as [->|(rr & ->)]; [contradiction|]. destruct Hin as [Hin|[]]. discriminate.
+  Qed.
+
+  Lemma find_dset_none_iff sets n : (forall s, In s sets -> sname s <> n) -> find_dset sets n = None.
+  Proof.
+    unfold find_dset. induction sets as [|x r IH]; cbn; intros H; [reflexivity|].
+    destruct (sname x =? n) eqn:E; [apply N.eqb_eq in E; elim (H x (or_introl eq_refl) E)|]. apply IH. intros s Hs. apply H. now right.
+  Qed.
+
+  (** The state after the pause propagation of a fault-free pass. *)
+  Lemma after_pause stale w stp mem :
+    NoDup (map sname (dw_sets w)) ->
+    pause_loop fault (st_listed fault w) (d_paused (dw_dep w)) (listed stale w) = (stp, mem) ->
+    p_dead stp = false /\ Forall2 same_core (listed stale w) mem /\ NoDup (map sname (dw_sets (p_w stp))) /\
+    (forall x', In x' (dw_sets (p_w stp)) -> exists x, In x (dw_sets w) /\ sid x' = sid x) /\
+    (forall x, In x (dw_sets w) -> exists x', In x' (dw_sets (p_w stp)) /\ sid x' = sid x) /\
+    (forall x, In x (dw_sets w) -> is_archived x = true -> In x (dw_sets (p_w stp))) /\
+    dw_dep (p_w stp) = dw_dep w /\
+    exists esp, p_evs stp = esp /\ Forall (fun e => exists s r, In s (listed stale w) /\ is_archived s = false /\ e = DUpdate (sname s) (if d_paused (dw_dep w) then LPaused else LActive) (d_paused (dw_dep w)) r) esp.
+  Proof.
+    intros Hnd Epl.
+    assert (Hal : p_dead (st_listed fault w) = false) by (unfold st_listed; now rewrite !read_req_alive).
+    assert (Hst : forall s, In s (listed stale w) -> find_dset (dw_sets (p_w (st_listed fault w))) (sname s) = Some s).
+    { intros s Hs. rewrite st_listed_w. apply nodup_find; [assumption|]. now apply listed_in in Hs. }
+    destruct (pause_loop_exact _ _ _ _ _ Hal (listed_nodup _ _ Hnd) Hst Epl) as (Hal' & _).
+    destruct (pause_loop_spec fault _ _ _ _ _ (listed_nodup _ _ Hnd) Hst Epl) as (HF & esp & Hnp & Hesp).
+    unfold news in Hnp. rewrite st_listed_evs in Hnp. cbn in Hnp.
+    assert (Hr : reach fault (st_listed fault w) stp).
+    { eapply pause_loop_reach; [constructor|exact Epl]. }
+    destruct (reach_frame fault slices _ _ Hr) as (es & F). pose proof (f_evs _ _ _ F) as He. rewrite st_listed_evs in He. cbn in He.
+    assert (Hesp' : Forall (fun e => exists s r, In s (listed stale w) /\ is_archived s = false /\ e = DUpdate (sname s) (if d_paused (dw_dep w) then LPaused else LActive) (d_paused (dw_dep w)) r) es).
+    { rewrite <- He, Hnp. eapply Forall_impl; [|exact Hesp]. intros e (s & rr & Hs & Ha & _ & ->). exists s, rr. auto. }
+    rewrite Forall_forall in Hesp'.
+    destruct F as [_ F2 F3 F4 F4' F5 F6 F7]. unfold sets_of in *. rewrite st_listed_w in *.
+    split; [assumption|]. split; [assumption|]. split; [auto|]. split.
+    { intros x' Hx'. destruct (F3 x' Hx') as [H|(rr & Hi & _)]; [assumption|]. destruct (Hesp' _ Hi) as (s0 & r0 & _ & _ & E). discriminate. }
+    split.
+    { intros x Hx. destruct (F4 x Hx) as (x' & Hx' & E & _); [|exists x'; auto]. intros dr Hi. destruct (Hesp' _ Hi) as (s0 & r0 & _ & _ & E). discriminate. }
+    split.
+    { intros x Hx Ha. apply F4'; [assumption| |].
+      - intros life pbp rr Hi. destruct (Hesp' _ Hi) as (s0 & r0 & Hs0 & Ha0 & E). injection E as En _ _ _.
+        assert (s0 = x); [|congruence]. apply (NoDup_map_eq sname (dw_sets w)); auto. now apply listed_in in Hs0.
+      - intros dr Hi. destruct (Hesp' _ Hi) as (s0 & r0 & _ & _ & E). discriminate. }
+    split.
+    { transitivity (dw_dep (p_w (st_listed fault w))); [|now rewrite st_listed_w]. clear - Epl. revert Epl. generalize (st_listed fault w) as st. revert stp mem.
+      induction (listed stale w) as [|s r IH]; cbn [pause_loop]; intros stp mem st H; [now injection H as <- _|].
+      destruct (if is_archived s then (st, s) else if Bool.eqb (d_paused (dw_dep w)) (paused_by_parent s) then (st, s)
+                else if d_paused (dw_dep w) then upd_req fault st s LPaused true else upd_req fault st s LActive false) as [st1 s1] eqn:E1.
+      destruct (pause_loop fault st1 (d_paused (dw_dep w)) r) as [st2 r2] eqn:E2. injection H as <- _.
+      rewrite (IH _ _ _ E2).
+      assert (Hu : forall life pbp, upd_req fault st s life pbp = (st1, s1) -> dw_dep (p_w st1) = dw_dep (p_w st)).
+      { intros life pbp Hu. destruct (upd_req_spec _ _ _ _ _ _ _ Hu) as [(_ & -> & _)|(_ & rr & _ & [(-> & _)|(cur & _ & _ & _ & -> & _)])]; reflexivity. }
+      destruct (is_archived s); [now injection E1 as <- _|]. destruct (Bool.eqb _ _); [now injection E1 as <- _|].
+      destruct (d_paused (dw_dep w)); eapply Hu; eauto. }
+    exists es. split; [assumption|]. now apply Forall_forall.
+  Qed.
+
+  Lemma status_req_mono st d e : In e (p_evs st) -> In e (p_evs (status_req fault st d)).
+  Proof. intros H. destruct (status_req_news fault st d) as (es & Hn & _). unfold news in Hn. rewrite Hn. apply in_or_app. now left. Qed.
+
+  Lemma split_current_false mem : split_current false mem = (None, mem).
+  Proof. reflexivity. Qed.
+
+  (** C07: if the newest ObjectSet does not carry the template hash, the deployment is not paused, the template
+      has phases, every ObjectSet has reported its revision and the name is free, the pass creates the ObjectSet:
+      spec = template, previous = every listed ObjectSet. *)
+  Theorem create_when stale w w' evs r :
+    NoDup (map sname (dw_sets w)) -> d_paused (dw_dep w) = false -> d_phases (dw_dep w) <> [] ->
+    has_rev0 (listed stale w) = false -> has_current (dep_hashed hash w) (listed stale w) = false ->
+    find_dset (dw_sets w) (hash (d_digest (dw_dep w)) (d_cc (dw_dep w))) = None ->
+    dep_pass hash fault slices sliceaware stale w = (w', evs, r) ->
+    In (DCreate (hash (d_digest (dw_dep w)) (d_cc (dw_dep w))) (d_phases (dw_dep w)) (map sname (listed stale w))
+                (hash (d_digest (dw_dep w)) (d_cc (dw_dep w))) CrOk) evs.
+  Proof.
+    intros Hnd Hpa Hph H0 Hhc Hfree Hp.
+    destruct (dep_pass_unfold _ _ _ _ _ _ _ _ _ Hp) as (st3 & d2 & -> & _ & _ & Hc).
+    destruct Hc as [(E0 & _)|(_ & stp & mem & Epl & Hc)]; [congruence|].
+    destruct Hc as [(Epa & _)|(_ & sta & d3 & mem' & Enr & Ear & ->)]; [cbn in Epa; congruence|].
+    change (d_paused (dep_hashed hash w)) with (d_paused (dw_dep w)) in Epl.
+    destruct (after_pause _ _ _ _ Hnd Epl) as (Hal & HF & _ & Hold & _ & _ & _ & _).
+    rewrite Hhc, split_current_false in Enr. cbn [fst snd] in Enr.
+    assert (Hfree' : find_dset (dw_sets (p_w stp)) (hash (d_digest (dw_dep w)) (d_cc (dw_dep w))) = None).
+    { apply find_dset_none_iff. intros x' Hx'. destruct (Hold x' Hx') as (x & Hx & E).
+      assert (sname x' = sname x) by (unfold sid in E; congruence). rewrite H. now apply (find_dset_none _ _ Hfree). }
+    assert (Hnn : is_nil (d_phases (dep_hashed hash w)) = false).
+    { change (d_phases (dep_hashed hash w)) with (d_phases (dw_dep w)). destruct (d_phases (dw_dep w)); [now elim Hph|reflexivity]. }
+    unfold new_revision in Enr. rewrite Hnn in Enr.
+    unfold create_req in Enr. rewrite Hal in Enr. cbn [fault_now fault] in Enr.
+    change (sname (new_set (dep_hashed hash w) mem)) with (hash (d_digest (dw_dep w)) (d_cc (dw_dep w))) in Enr. rewrite Hfree' in Enr.
+    cbn [new_set ds_set os_phases os_prev ds_hash] in Enr. injection Enr as <- <-.
+    rewrite Hhc in Ear. unfold archive in Ear. cbn [negb] in Ear. injection Ear as <- <-.
+    apply status_req_mono. cbn [emit p_evs]. apply in_or_app. right. left.
+    rewrite (Forall2_same_core_names _ _ HF). reflexivity.
+  Qed.
+
+  Lemma Forall2_rev {A B} (R : A -> B -> Prop) l l' : Forall2 R l l' -> Forall2 R (rev l) (rev l').
+  Proof. induction 1; cbn; [constructor|]. apply Forall2_app; [assumption|]. constructor; [assumption|constructor]. Qed.
+
+  Lemma latest_revision_core L mem : Forall2 same_core L mem -> latest_revision L = latest_revision mem.
+  Proof.
+    intros HF. apply Forall2_rev in HF. unfold latest_revision. inversion HF as [|a b l l' Hab _]; [reflexivity|].
+    now destruct (same_core_facts _ _ Hab) as (_ & -> & _).
+  Qed.
+
+  Lemma bump_cc_neq c : option_eqb N.eqb c (bump_cc c) = false.
+  Proof. destruct c as [n|]; cbn; [|reflexivity]. apply N.eqb_neq. lia. Qed.
+
+  (** C07: a name clash with an ObjectSet that is archived, has a different spec, is not controlled by this
+      deployment or is an older revision is not resolved by reusing it: nothing is created, the ObjectSet keeps all
+      its identity fields, and the collision counter is bumped (so that the next pass uses a fresh name: [create_when]). *)
+  Theorem no_reuse stale w w' evs r c :
+    NoDup (map sname (dw_sets w)) -> d_paused (dw_dep w) = false -> d_phases (dw_dep w) <> [] ->
+    has_rev0 (listed stale w) = false -> has_current (dep_hashed hash w) (listed stale w) = false ->
+    In c (dw_sets w) -> sname c = hash (d_digest (dw_dep w)) (d_cc (dw_dep w)) ->
+    (is_archived c = true \/ phases_eqb (d_phases (dw_dep w)) (os_phases (ds_set c)) = false \/
+     ds_ctrl c <> oi_uid (d_id (dw_dep w)) \/ (srev c < latest_revision (listed stale w))%Z) ->
+    dep_pass hash fault slices sliceaware stale w = (w', evs, r) ->
+    r = DpDone /\ created_name evs = None /\
+    In (DCreate (sname c) (d_phases (dw_dep w)) (map sname (listed stale w)) (sname c) CrExists) evs /\
+    d_cc (dw_dep w') = bump_cc (d_cc (dw_dep w)) /\
+    exists c', In c' (dw_sets w') /\ sid c' = sid c.
+  Proof.
+    intros Hnd Hpa Hph H0 Hhc Hc Hn Hwhy Hp.
+    destruct (dep_pass_unfold _ _ _ _ _ _ _ _ _ Hp) as (st3 & d2 & -> & -> & -> & Hcs).
+    destruct Hcs as [(E0 & _)|(_ & stp & mem & Epl & Hcs)]; [congruence|].
+    destruct Hcs as [(Epa & _)|(_ & sta & d3 & mem' & Enr & Ear & ->)]; [cbn in Epa; congruence|].
+    change (d_paused (dep_hashed hash w)) with (d_paused (dw_dep w)) in Epl.
+    destruct (after_pause _ _ _ _ Hnd Epl) as (Hal & HF & Hnd' & Hold & Hkeep & Harch & Hdep & esp & Hesp & HespF).
+    rewrite Hhc, split_current_false in Enr. cbn [fst snd] in Enr.
+    set (d1 := dep_hashed hash w) in *. set (h := hash (d_digest (dw_dep w)) (d_cc (dw_dep w))) in *.
+    (* the holder after the pause propagation *)
+    assert (Hc1 : exists c1, find_dset (dw_sets (p_w stp)) h = Some c1 /\ sid c1 = sid c /\ adoptable d1 mem c1 = false).
+    { destruct (Hkeep c Hc) as (c' & Hc' & Ec').
+      assert (En' : sname c' = h) by (unfold sid in Ec'; injection Ec'; intros; congruence).
+      assert (Efields : srev c' = srev c /\ ds_ctrl c' = ds_ctrl c /\ os_phases (ds_set c') = os_phases (ds_set c)) by (unfold sid in Ec'; injection Ec'; auto).
+      destruct Efields as (Er & Ect & Eph).
+      destruct Hwhy as [Ha|[Hs|[Hct|Hr]]].
+      - pose proof (Harch c Hc Ha) as Hin. exists c. split; [rewrite <- Hn; now apply nodup_find|]. split; [reflexivity|].
+        unfold adoptable. now rewrite Ha.
+      - exists c'. split; [rewrite <- En'; now apply nodup_find|]. split; [assumption|].
+        unfold adoptable. rewrite Eph. change (d_phases d1) with (d_phases (dw_dep w)). rewrite Hs. now rewrite !andb_false_r.
+      - exists c'. split; [rewrite <- En'; now apply nodup_find|]. split; [assumption|].
+        unfold adoptable. rewrite Ect. change (d_id d1) with (d_id (dw_dep w)).
+        assert ((ds_ctrl c =? oi_uid (d_id (dw_dep w))) = false) by now apply N.eqb_neq. rewrite H. now rewrite !andb_false_r.
+      - exists c'. split; [rewrite <- En'; now apply nodup_find|]. split; [assumption|].
+        unfold adoptable. rewrite Er, <- (latest_revision_core _ _ HF).
+        assert ((latest_revision (listed stale w) <=? srev c)%Z = false) by (apply Z.leb_gt; lia). rewrite H. now rewrite andb_false_r. }
+    destruct Hc1 as (c1 & Hf1 & Es1 & Had).
+    assert (Hnn : is_nil (d_phases d1) = false).
+    { change (d_phases d1) with (d_phases (dw_dep w)). destruct (d_phases (dw_dep w)); [now elim Hph|reflexivity]. }
+    unfold new_revision in Enr. rewrite Hnn in Enr. unfold create_req in Enr. rewrite Hal in Enr. cbn [fault_now fault] in Enr.
+    change (sname (new_set d1 mem)) with h in Enr. rewrite Hf1 in Enr.
+    cbn [new_set ds_set os_phases os_prev ds_hash] in Enr.
+    unfold read_req in Enr. cbn [emit p_dead fault_now fault p_w] in Enr. change (d_hash d1) with h in Enr. rewrite Hf1, Had in Enr.
+    injection Enr as <- <-.
+    rewrite Hhc in Ear. unfold archive in Ear. cbn [negb] in Ear. injection Ear as <- <-.
+    match goal with |- context [status_req fault ?st ?d] => destruct (status_req_ok st d eq_refl) as (Hal4 & He4 & Hd4 & Hs4) end.
+    rewrite Hal4, He4. cbn [emit p_evs p_w] in *. rewrite app_nil_r in *.
+    split; [reflexivity|]. split.
+    { unfold created_name. rewrite !fold_left_app. cbn.
+      assert (Hpl : fold_left (fun acc e => match e with DCreate n _ _ _ CrOk | DCreate n _ _ _ CrLost => Some n | _ => acc end) (p_evs stp) None = None).
+      { rewrite Hesp. clear - HespF. induction HespF as [|e l (s0 & r0 & _ & _ & ->) _ IH]; cbn; [reflexivity|exact IH]. }
+      now rewrite Hpl. }
+    split.
+    { apply in_or_app. left. apply in_or_app. right. left. rewrite Hn. fold h. change (d_phases d1) with (d_phases (dw_dep w)).
+      now rewrite (Forall2_same_core_names _ _ HF). }
+    split.
+    { cbn [with_fresh dw_dep].
+      match type of Hd4 with context [set_status ?a ?b ?c] => destruct (set_status_keeps a b c) as (_ & Hcc & _) end.
+      rewrite Hd4.
+      - cbn [with_status_d d_cc]. rewrite Hcc. reflexivity.
+      - rewrite Hdep. unfold status_eqb_d. rewrite Hcc. cbn [set_cc d_cc].
+        rewrite bump_cc_neq. now rewrite !andb_false_r. }
+    exists c1. split; [|assumption]. cbn [with_fresh dw_sets]. rewrite Hs4. now apply find_dset_some in Hf1.
+  Qed.
+End NoFault.
